@@ -201,6 +201,7 @@ func init() {
 			{Name: "prefixes", Run: prefixUnit("fastq", false, 0)},
 			{Name: "edges", Run: edgeUnit("fastq")},
 			{Name: "fieldlens", TShards: 2, Run: lengthUnit("fastq")},
+			{Name: "parallel", Race: true, Run: codecParallel("fastq")},
 		},
 	})
 }
